@@ -39,7 +39,7 @@ CHECKS = {
    category="model_checking", design_ref="§5 C03",
    text="Small-scope exhaustive: every operator spelling of the API (q+q, q-q, q*q, q/q, q**n, root, unary, n*q, q*n, q/n, n/q, q*u, u*q, q/u, in_unit, six comparisons in both orders) over a pool of quantities in three magnitude kinds and compound/prefixed units; the spec prescribes outcome class, dimension, Decimal-ness and the left unit; the code's result is compared for each case.",
    note="Synthetic dyadic system S2; pool sizes in evidence; conversions the planner refuses are counted, not judged."),
- "C06": dict(engine="quantities", technique="TLA+ spec (Quantities.tla: Phys homomorphism, exact rational arithmetic) with TLC computing the SI value / truth value of every operator case; replayed on the real library and compared through alpha (magnitude x exact size); trace validation of recorded public calls against Ledger.tla (TLC)",
+ "C06": dict(engine="quantities", technique="TLA+ spec (Quantities.tla: Phys homomorphism, exact rational arithmetic) with TLC computing the SI value / truth value of every operator case; replayed on the real library and compared through alpha (magnitude x exact size); trace validation of recorded public calls against Ledger.tla (TLC): SI value of recorded products, quotients and powers, range and sign of recorded sums and differences",
    category="model_checking", design_ref="§5 C06",
    text="The pool contains the same physical values written in different convertible units and prefixes (decimal and binary); TLC computes Phys(op(a,b)) exactly; the code's result is mapped to its SI value with exact Fractions and compared (exact on dyadic data, 1e-12 otherwise; for + and - relative to the operands). Cross-scale comparisons of the Temp model are judged here as well.",
    note="Synthetic S2; offset scales excluded (C10)."),
@@ -47,7 +47,7 @@ CHECKS = {
    category="model_checking", design_ref="§5 C11",
    text="All cases of the Quantities enumeration whose operands carry a prefix: the result's unit must have the normal form p**n * u**n / added prefix exponents (same base, exact) and the SI value must be prefix factor times unit (1e-9 across bases, as the statement allows). Prefix identities on offset scales: two spellings of a prefixed source convert alike, a prefixed target is the factor times the target.",
    note="Prefixes exercised: 10^3, 10^-3, 2^10 and their products/powers; registered SI and IEC tables are walked separately in the thorough tier (see evidence)."),
- "C12": dict(engine="quantities", technique="TLA+ spec (Quantities.tla: order by Phys; trichotomy and symmetry checked by TLC on the model) with every ordered pair replayed on the real library: six operators in both argument orders, hash, sorted(); trace validation of recorded public calls against Ledger.tla (TLC)",
+ "C12": dict(engine="quantities", technique="TLA+ spec (Quantities.tla: order by Phys; trichotomy and symmetry checked by TLC on the model) with every ordered pair replayed on the real library: six operators in both argument orders, hash, sorted(); trace validation of recorded public calls against Ledger.tla (TLC): each recorded == and < with its answer the other way round and the two hashes",
    category="model_checking", design_ref="§5 C12",
    text="TLC prescribes the physical order (-1/0/+1) of every commensurable pair of the pool; the code's ==, !=, <, <=, >, >= in both argument orders must be exactly the truth table of that order; equal pairs must hash equally; random mixed-unit lists must sort into physical order. Symmetry pairs include approximately(...) and Levels; node histories with re-declarations; magnitudes at the edges of the numeric types (infinities, 2**200, signed zeros).",
    note="Synthetic S2; Level/Measurement symmetry is covered in the thorough tier section of the evidence when present."),
@@ -59,7 +59,7 @@ CHECKS = {
 
  "C20": dict(engine="intern", technique="TLA+ spec InternAtomic.tla (linearizable get-or-create) as the deciding spec; call/return histories recorded from the REAL library under a line-granularity scheduler are validated by TLC (trace validation, code->spec); PlusCal mechanism model InternShipped.tla for non-vacuity",
    category="model_checking", design_ref="§5 C20",
-   text="Schedules of two and three threads evaluating the same new dimension/prefix/unit/logarithm/logarithmic unit are explored systematically on the real code (all 1-preemption and sampled/all 2-preemption schedules at line granularity, sampled 3-thread and random schedules); every run's history and final table must be accepted by TLC as a behaviour of InternAtomic for some choice of linearization points. The PlusCal model of the shipped check-then-insert must violate C20_Single in TLC and the locked variant must satisfy it. A named base-unit definition evaluated by several threads is one of the constructions (a refusal with ValueError is a legitimate no-op).",
+   text="Schedules of two and three threads evaluating the same new dimension/prefix/unit/logarithm/logarithmic unit are explored systematically on the real code (all 1-preemption and sampled/all 2-preemption schedules at line granularity, sampled 3-thread and random schedules; every one-preemption schedule and sampled random ones again with either thread being the process's main thread); every run's history and final table must be accepted by TLC as a behaviour of InternAtomic for some choice of linearization points. The PlusCal model of the shipped check-then-insert must violate C20_Single in TLC and the locked variant must satisfy it. A named base-unit definition evaluated by several threads is one of the constructions (a refusal with ValueError is a legitimate no-op).",
    note="Line granularity inside the measured package; lru_cache wrappers are opaque steps; a thread not back within 20 ms is treated as blocked (any synchronisation scheme is accepted, only the histories are judged)."),
 
  "C16": dict(engine="lr", technique="TLA+ spec LR.tla: product of the two LALR tables (shipped vs built from the grammar) explored completely by TLC, LR interpreter run on every token string up to a bound, and TLC trace validation of the shipped parser ENGINE's recorded state stacks against the shipped table; plus differential parsing",
